@@ -750,6 +750,15 @@ func (sc *specCtx) evalCall(e *CallE) Val {
 			specFail("local(%s): no such local variable is in scope here", id.Name)
 		}
 		specFail("local(NAME)")
+	case "lastresult":
+		// lastresult(NAME): what the most recent call (on this path) of a function or method called NAME returned
+		if id, ok := e.Args[0].(*Ident); ok && len(e.Args) == 1 {
+			if v, ok := sc.st.lastRes[id.Name]; ok {
+				return v
+			}
+			specFail("lastresult(%s): no call of %s precedes this point on the path", id.Name, id.Name)
+		}
+		specFail("lastresult(NAME)")
 	case "boundrecv":
 		// boundrecv(f): the receiver a method value is bound to (unconstrained for other function values)
 		a := args(1)
